@@ -80,13 +80,17 @@ def hasFactory (a : Attr) : Bool :=
 def fromFactory (attrs : List Attr) (c : Call) (a : Attr) : Bool :=
   hasFactory a && !valueSupplied attrs c a
 
+/-- the converter invocations of one field: its converter once (`idx 0`); for a chain `converter=[c0, c1, …]`
+    every member once, left to right (`idx` = position) -/
+def convCalls (a : Attr) : List Event :=
+  (List.range (convCount a)).map (fun i => { id := { kind := "conv", field := a.name, idx := i }, args := [] })
+
 /-- the converter / factory invocations of one well-formed call, from the statement: for every participating
     field in field order, its factory iff the value comes from the factory, then its converter iff it has
-    one — each exactly once. -/
+    one (every member of a converter chain, in order) — each exactly once. -/
 def expectedCalls (attrs : List Attr) (c : Call) : List Event :=
   (attrs.filter participates).flatMap (fun a =>
-    (if fromFactory attrs c a then [callEv "factory" a.name] else []) ++
-    (if a.conv.isSome then [callEv "conv" a.name] else []))
+    (if fromFactory attrs c a then [callEv "factory" a.name] else []) ++ convCalls a)
 
 def spec (c : Case) (o : Obs) : Bool :=
   let r := c.eff
